@@ -706,6 +706,31 @@ class _SetAttr(ast.NodeTransformer):
                 targets=[ast.Attribute(value=c.args[0], attr=c.args[1].value,
                                        ctx=ast.Store())],
                 value=c.args[2], type_comment=None), node)
+        # x.__setitem__(k, v) / operator.setitem(x, k, v) is `x[k] = v`;
+        # x.__delitem__(k) / operator.delitem(x, k) is `del x[k]`
+        if isinstance(c, ast.Call) and not c.keywords and \
+                not any(isinstance(a, ast.Starred) for a in c.args):
+            f = c.func
+            tgt = None
+            if isinstance(f, ast.Attribute) and f.attr == '__setitem__' and len(c.args) == 2:
+                tgt, key, val = f.value, c.args[0], c.args[1]
+            elif isinstance(f, ast.Attribute) and isinstance(f.value, ast.Name) and \
+                    f.value.id == 'operator' and f.attr == 'setitem' and len(c.args) == 3:
+                tgt, key, val = c.args
+            if tgt is not None:
+                self.changed = True
+                return ast.copy_location(ast.Assign(
+                    targets=[ast.Subscript(value=tgt, slice=key, ctx=ast.Store())],
+                    value=val, type_comment=None), node)
+            if isinstance(f, ast.Attribute) and f.attr == '__delitem__' and len(c.args) == 1:
+                tgt, key = f.value, c.args[0]
+            elif isinstance(f, ast.Attribute) and isinstance(f.value, ast.Name) and \
+                    f.value.id == 'operator' and f.attr == 'delitem' and len(c.args) == 2:
+                tgt, key = c.args
+            if tgt is not None:
+                self.changed = True
+                return ast.copy_location(ast.Delete(
+                    targets=[ast.Subscript(value=tgt, slice=key, ctx=ast.Del())]), node)
         return node
 
 
@@ -1072,6 +1097,13 @@ def prenormalize_helper(helper):
     helper can be inlined as an expression, also inside a comprehension)"""
     new = clone(helper)
     changed = _any_all(new.body)
+    if _iter_next_loops(new.body):
+        changed = True
+    # a bare `return` that ends the helper says nothing
+    if new.body and isinstance(new.body[-1], ast.Return) and new.body[-1].value is None \
+            and len(new.body) > 1:
+        new.body = new.body[:-1]
+        changed = True
     body = new.body
     doc = []
     if body and isinstance(body[0], ast.Expr) and isinstance(body[0].value, ast.Constant) \
@@ -1540,6 +1572,18 @@ class _Spell(ast.NodeTransformer):
             ast.copy_location(c, m)
             ast.fix_missing_locations(c)
             return c
+        # f(*(a, b)) is f(a, b) (a tuple display cannot have grown)
+        if any(isinstance(a, ast.Starred) and isinstance(a.value, ast.Tuple) and
+               not any(isinstance(y, ast.Starred) for y in a.value.elts) for a in node.args):
+            flat = []
+            for a in node.args:
+                if isinstance(a, ast.Starred) and isinstance(a.value, ast.Tuple) and \
+                        not any(isinstance(y, ast.Starred) for y in a.value.elts):
+                    flat.extend(a.value.elts)
+                else:
+                    flat.append(a)
+            node.args = flat
+            self.changed = True
         for k, a in enumerate(node.args):
             if isinstance(a, ast.Starred) and is_map(a.value):
                 node.args[k] = ast.copy_location(ast.Starred(value=comp(a.value),
@@ -1610,6 +1654,11 @@ class _Spell(ast.NodeTransformer):
                     isinstance(f.args[0].value, str) and f.args[0].value.isidentifier():
                 return ast.Call(func=ast.Attribute(value=e, attr=f.args[0].value, ctx=ast.Load()),
                                 args=list(f.args[1:]), keywords=[])
+        if isinstance(f, ast.Attribute) and plain and len(node.args) == 1 and \
+                f.attr in ('__getitem__', '__contains__'):
+            if f.attr == '__getitem__':
+                return ast.Subscript(value=f.value, slice=node.args[0], ctx=ast.Load())
+            return ast.Compare(left=node.args[0], ops=[ast.In()], comparators=[f.value])
         op = _opname(f) if isinstance(f, ast.Attribute) else None
         if op and plain:
             a = node.args
@@ -1623,32 +1672,7 @@ class _Spell(ast.NodeTransformer):
                 return ast.UnaryOp(op=ast.Not(), operand=a[0])
             if op == 'truth' and len(a) == 1:
                 return ast.Call(func=ast.Name(id='bool', ctx=ast.Load()), args=[a[0]], keywords=[])
-        # map / filter consumed eagerly
-        def fn_ok(F):
-            return isinstance(F, (ast.Lambda, ast.Name, ast.Attribute)) or \
-                (isinstance(F, ast.Call) and _opname(F.func) in ('attrgetter', 'itemgetter',
-                                                                  'methodcaller'))
-
-        def as_gen(m):
-            if not (isinstance(m, ast.Call) and isinstance(m.func, ast.Name) and
-                    m.func.id in ('map', 'filter') and len(m.args) == 2 and not m.keywords
-                    and not any(isinstance(x, ast.Starred) for x in m.args)):
-                return None
-            F, X = m.args
-            v = '_m' if m.func.id == 'map' else '_f'
-            if m.func.id == 'filter' and _is_const(F, None):
-                elt, ifs = ast.Name(id=v, ctx=ast.Load()), [ast.Name(id=v, ctx=ast.Load())]
-            elif not fn_ok(F):
-                return None
-            else:
-                app = self.visit(ast.Call(func=F, args=[ast.Name(id=v, ctx=ast.Load())],
-                                          keywords=[]))
-                if m.func.id == 'map':
-                    elt, ifs = app, []
-                else:
-                    elt, ifs = ast.Name(id=v, ctx=ast.Load()), [app]
-            return ast.GeneratorExp(elt=elt, generators=[ast.comprehension(
-                target=ast.Name(id=v, ctx=ast.Store()), iter=X, ifs=ifs, is_async=0)])
+        as_gen = self._as_gen
         if isinstance(f, ast.Name) and f.id in ('list', 'tuple', 'set', 'any', 'all', 'sum',
                                                 'dict', 'iter', 'frozenset', 'sorted') and \
                 plain and len(node.args) == 1:
@@ -1673,8 +1697,46 @@ class _Spell(ast.NodeTransformer):
                 return ast.Call(func=f, args=[g] + list(node.args[1:]), keywords=[])
         return None
 
+    def _as_gen(self, m):
+        # map / filter consumed eagerly
+        def fn_ok(F):
+            return isinstance(F, (ast.Lambda, ast.Name, ast.Attribute)) or \
+                (isinstance(F, ast.Call) and _opname(F.func) in ('attrgetter', 'itemgetter',
+                                                                  'methodcaller'))
+
+        if True:
+            if not (isinstance(m, ast.Call) and isinstance(m.func, ast.Name) and
+                    m.func.id in ('map', 'filter') and len(m.args) == 2 and not m.keywords
+                    and not any(isinstance(x, ast.Starred) for x in m.args)):
+                return None
+            F, X = m.args
+            v = '_m' if m.func.id == 'map' else '_f'
+            if m.func.id == 'filter' and _is_const(F, None):
+                elt, ifs = ast.Name(id=v, ctx=ast.Load()), [ast.Name(id=v, ctx=ast.Load())]
+            elif not fn_ok(F):
+                return None
+            else:
+                app = self.visit(ast.Call(func=F, args=[ast.Name(id=v, ctx=ast.Load())],
+                                          keywords=[]))
+                if m.func.id == 'map':
+                    elt, ifs = app, []
+                else:
+                    elt, ifs = ast.Name(id=v, ctx=ast.Load()), [app]
+            return ast.GeneratorExp(elt=elt, generators=[ast.comprehension(
+                target=ast.Name(id=v, ctx=ast.Store()), iter=X, ifs=ifs, is_async=0)])
+
     def _one_star(self, node, name):
         self.generic_visit(node)
+        # [*filter(F, X), y] is [*[c for c in X if F(c)], y]; likewise map
+        if isinstance(node.ctx, ast.Load):
+            for k_, el in enumerate(node.elts):
+                if isinstance(el, ast.Starred):
+                    g_ = self._as_gen(el.value)
+                    if g_ is not None:
+                        node.elts[k_] = ast.copy_location(ast.Starred(
+                            value=ast.copy_location(ast.ListComp(
+                                elt=g_.elt, generators=g_.generators), el), ctx=ast.Load()), el)
+                        self.changed = True
         if isinstance(node.ctx, ast.Load) and len(node.elts) == 1 and \
                 isinstance(node.elts[0], ast.Starred):
             self.changed = True
@@ -1688,6 +1750,105 @@ class _Spell(ast.NodeTransformer):
 
     def visit_Tuple(self, node):
         return self._one_star(node, 'tuple')
+
+
+def _index_loops(block):
+    """`for i in range(len(X)): ... X[i] ...` (i used only to index X, X not
+    rebound in the body) is `for e in X: ... e ...`"""
+    changed = False
+    for st in block:
+        if not (isinstance(st, ast.For) and isinstance(st.target, ast.Name) and
+                not st.orelse and isinstance(st.iter, ast.Call) and
+                isinstance(st.iter.func, ast.Name) and st.iter.func.id == 'range' and
+                len(st.iter.args) == 1 and not st.iter.keywords):
+            continue
+        ln = st.iter.args[0]
+        if not (isinstance(ln, ast.Call) and isinstance(ln.func, ast.Name) and
+                ln.func.id == 'len' and len(ln.args) == 1 and not ln.keywords):
+            continue
+        X = ln.args[0]
+        if not _call_free(X):
+            continue
+        xs = ast.dump(X)
+        i = st.target.id
+        roots = _root_names(X)
+        ok = True
+        uses = []
+        for b in st.body:
+            for n in ast.walk(b):
+                if isinstance(n, ast.Name) and n.id in roots and \
+                        isinstance(n.ctx, (ast.Store, ast.Del)):
+                    ok = False
+                if isinstance(n, ast.Subscript) and ast.dump(n.value) == xs and \
+                        isinstance(n.slice, ast.Name) and n.slice.id == i and \
+                        isinstance(n.ctx, ast.Load):
+                    uses.append(n)
+        n_i = sum(1 for b in st.body for n in ast.walk(b)
+                  if isinstance(n, ast.Name) and n.id == i)
+        if not ok or not uses or n_i != len(uses):
+            continue
+        ev = '_e_' + i
+
+        class R(ast.NodeTransformer):
+            def visit_Subscript(self, n):
+                if any(n is u for u in uses):
+                    return ast.copy_location(ast.Name(id=ev, ctx=ast.Load()), n)
+                return self.generic_visit(n)
+        st.body = [R().visit(b) for b in st.body]
+        st.target = ast.copy_location(ast.Name(id=ev, ctx=ast.Store()), st.target)
+        st.iter = X
+        changed = True
+    return changed
+
+
+def _iter_next_loops(block):
+    """it = iter(X); while True: try: v = next(it) / except StopIteration: return|break;
+    BODY  is  for v in X: BODY  (followed by the return)"""
+    changed = False
+    k = 0
+    while k + 1 < len(block):
+        a, w = block[k], block[k + 1]
+        k += 1
+        if not (isinstance(a, ast.Assign) and len(a.targets) == 1 and
+                isinstance(a.targets[0], ast.Name) and isinstance(a.value, ast.Call) and
+                isinstance(a.value.func, ast.Name) and a.value.func.id == 'iter' and
+                len(a.value.args) == 1 and not a.value.keywords):
+            continue
+        it = a.targets[0].id
+        if not (isinstance(w, ast.While) and not w.orelse and w.body and
+                (_is_const(w.test, True) or _is_const(w.test, 1)) and
+                isinstance(w.body[0], ast.Try)):
+            continue
+        t = w.body[0]
+        if not (len(t.body) == 1 and not t.orelse and not t.finalbody and
+                len(t.handlers) == 1 and isinstance(t.handlers[0].type, ast.Name) and
+                t.handlers[0].type.id == 'StopIteration' and len(t.handlers[0].body) == 1):
+            continue
+        nx = t.body[0]
+        if not (isinstance(nx, ast.Assign) and len(nx.targets) == 1 and
+                isinstance(nx.value, ast.Call) and isinstance(nx.value.func, ast.Name) and
+                nx.value.func.id == 'next' and len(nx.value.args) == 1 and
+                isinstance(nx.value.args[0], ast.Name) and nx.value.args[0].id == it):
+            continue
+        h = t.handlers[0].body[0]
+        if isinstance(h, ast.Break):
+            after = []
+        elif isinstance(h, ast.Return):
+            after = [h]
+        else:
+            continue
+        rest = w.body[1:]
+        if any(isinstance(n, ast.Name) and n.id == it for b in rest for n in ast.walk(b)):
+            continue
+        later = block[k + 1:]
+        if any(isinstance(n, ast.Name) and n.id == it for b in later for n in ast.walk(b)):
+            continue
+        loop = ast.copy_location(ast.For(target=nx.targets[0], iter=a.value.args[0],
+                                         body=rest or [ast.Pass()], orelse=[],
+                                         type_comment=None), w)
+        block[k - 1:k + 1] = [loop] + after
+        changed = True
+    return changed
 
 
 def _comp_nnf(func):
@@ -1729,6 +1890,10 @@ def normalize(func):
                     if _split_ifexp_stmts(blk):
                         round_changed = True
                     if _unroll_const_loops(blk):
+                        round_changed = True
+                    if _index_loops(blk):
+                        round_changed = True
+                    if _iter_next_loops(blk):
                         round_changed = True
                     if _any_all(blk, lambda i, blk=blk: _reads_after(new, blk, i)):
                         round_changed = True
